@@ -484,3 +484,40 @@ package aml
 //@   at exit loop 1: ghost walkDone = argIndex == argCount
 //@   ensures args: res == parseResultOk && isCall ==> walkDone && nextObjCalls == old(nextObjCalls) + uintptr(declArgs)
 //@   ensures plain: res == parseResultOk && !isCall ==> nextObjCalls == old(nextObjCalls)
+
+// relocateNamedObjects / mergeScopeDirectives (the fixpoint passes): once the walk over an
+// object's children has started it ends early only when a child fails - a child that asks for
+// an extra pass does not keep its later siblings from being visited in this pass (they may be
+// what it is waiting for) - and the request is passed on: a completed walk returns
+// RequireExtraPass if some child asked for it and Ok otherwise.
+//@ ghost walkExtra bool
+//@ func (p *Parser) relocateNamedObjects(objIndex uint32) (res parseResult)
+//@   property C11
+//@   partial
+//@   concrete (*Parser).relocateNamedObjects
+//@   requires p != nil
+//@   modifies *, walkChild, walkDone, walkExtra
+//@   at entry: ghost walkDone = false
+//@   at after call relocateNamedObjects 1: ghost walkChild = result()
+//@   loop 2 ghost extra = false
+//@   loop 2 step extra = extra || walkChild == parseResultRequireExtraPass
+//@   loop 2 (siblingIndex != InvalidIndex) invariant acc: (extra ==> res == parseResultRequireExtraPass) && (!extra ==> res == parseResultOk)
+//@   at exit loop 2: assert visitsAll: siblingIndex == InvalidIndex || walkChild == parseResultFailed
+//@   at exit loop 2: ghost walkDone = siblingIndex == InvalidIndex
+//@   at exit loop 2: ghost walkExtra = extra
+//@   ensures out: walkDone && res != parseResultFailed ==> (walkExtra ==> res == parseResultRequireExtraPass) && (!walkExtra ==> res == parseResultOk)
+//@ func (p *Parser) mergeScopeDirectives(objIndex uint32) (res parseResult)
+//@   property C11
+//@   partial
+//@   concrete (*Parser).mergeScopeDirectives
+//@   requires p != nil
+//@   modifies *, walkChild, walkDone, walkExtra
+//@   at entry: ghost walkDone = false
+//@   at after call mergeScopeDirectives 1: ghost walkChild = result()
+//@   loop 3 ghost extra = false
+//@   loop 3 step extra = extra || walkChild == parseResultRequireExtraPass
+//@   loop 3 (siblingIndex != InvalidIndex) invariant acc: (extra ==> res == parseResultRequireExtraPass) && (!extra ==> res == parseResultOk)
+//@   at exit loop 3: assert visitsAll: siblingIndex == InvalidIndex || walkChild == parseResultFailed
+//@   at exit loop 3: ghost walkDone = siblingIndex == InvalidIndex
+//@   at exit loop 3: ghost walkExtra = extra
+//@   ensures out: walkDone && res != parseResultFailed ==> (walkExtra ==> res == parseResultRequireExtraPass) && (!walkExtra ==> res == parseResultOk)
